@@ -6,6 +6,7 @@ import (
 	"math/big"
 	"math/rand"
 	"os"
+	"strings"
 	"testing"
 	"testing/cryptotest"
 	"time"
@@ -158,7 +159,17 @@ func run(r *simkit.Run) {
 	}
 	r.Meta["utxo_cache"] = fmt.Sprint(cfg.UtxoCacheMax)
 	r.Meta["maturity"] = fmt.Sprint(net.Maturity)
-	var store Store = newMemStore(0)
+	maxFile := uint32(0)
+	if (prof == "utxo" || prof == "crash") && c.Bool(200, "prune") {
+		// a pruned node: small emulated block files, a target of a few
+		// files; forks stay shallow (see pickParent) because a pruned node
+		// cannot reorganise through block data it has deleted
+		maxFile = []uint32{1200, 3000}[c.Intn(2, "prune-file-size")]
+		cfg.Prune = uint64(maxFile) * uint64(simkit.Range(c, 3, 6, "prune-files"))
+		r.Meta["prune"] = fmt.Sprintf("file=%d target=%d", maxFile, cfg.Prune)
+		r.Sig("prune")
+	}
+	var store Store = newMemStore(maxFile)
 	if os.Getenv("VERIF_CHAINSIM_DISK") != "" {
 		store = newDiskStore(net.Net)
 	}
@@ -401,7 +412,14 @@ func run(r *simkit.Run) {
 				s.markedInvalid = map[*MBlock]bool{}
 			}
 			wasMain := b.IsAncestorOf(s.n.Tip())
+			// InvalidateBlock on a block the node already found invalid by
+			// itself is a no-op: descendants are not (re)marked then
+			_, _, failed, invAnc, _ := n.Chain.VerifNodeStatus(&b.Hash)
 			for _, d := range w.Blocks[1:] {
+				if failed || invAnc {
+					r.Probe("invalidate-already-known-invalid")
+					break
+				}
 				if b.IsAncestorOf(d) && s.nodeKnown(d) && (!wasMain || d.IsAncestorOf(s.n.Tip())) {
 					s.markedInvalid[d] = true
 				}
@@ -515,7 +533,13 @@ func run(r *simkit.Run) {
 				}
 			}
 			if err := n.Open(); err != nil {
-				r.Violate("C04", "reopen", "", "reopening the node after a %s shutdown: %v", map[bool]string{true: "clean", false: "no-flush"}[clean], err)
+				which := ""
+				for _, b := range w.Blocks {
+					if strings.Contains(err.Error(), b.Hash.String()) {
+						which = fmt.Sprintf(" (the block is %v; last tip %v)", b, s.prevTip)
+					}
+				}
+				r.Violate("C04", "reopen", "", "reopening the node after a %s shutdown: %v%s", map[bool]string{true: "clean", false: "no-flush"}[clean], err, which)
 			}
 			for _, b := range w.Blocks {
 				if !s.doubt[b] {
@@ -607,16 +631,31 @@ func (s *Sim) pickParent() *MBlock {
 			best = b
 		}
 	}
+	// a pruned node only sees forks whose fork point is at most 3 blocks
+	// below the best block
+	shallow := func(b *MBlock) bool {
+		if s.n == nil || s.n.cfg.Prune == 0 {
+			return true
+		}
+		f := b
+		for !f.IsAncestorOf(best) {
+			f = f.Parent
+		}
+		return best.Height-f.Height <= 3
+	}
 	switch simkit.Pick(c, "parent", 55, 25, 20) {
 	case 0:
 		return best
 	case 1:
-		return w.Blocks[c.Intn(len(w.Blocks), "fork-at")]
+		if p := w.Blocks[c.Intn(len(w.Blocks), "fork-at")]; shallow(p) {
+			return p
+		}
+		return best
 	default:
 		// a leaf other than best
 		var leaves []*MBlock
 		for _, b := range w.Blocks {
-			if len(b.Children) == 0 && b != best {
+			if len(b.Children) == 0 && b != best && shallow(b) {
 				leaves = append(leaves, b)
 			}
 		}
